@@ -45,6 +45,9 @@ struct AdvBus {
     turns: Vec<Turn>,
     in_progress_run: u32,
     cut: bool,
+    /// how many in-progress answers in a row the adversary may give (8 normally, rarely hundreds)
+    max_in_progress: u32,
+    last_sent: Option<Message<'static>>,
 }
 
 fn reply_class(r: &BusReply, own: Address) -> u32 {
@@ -64,8 +67,19 @@ impl AdvBus {
         let own = self.addr;
         // After many messages only good replies, and never more than 8 in-progress answers in a
         // row, so that every call ends.
-        if self.turns.len() > 120 {
+        if self.turns.len() > 120 + 2 * self.max_in_progress as usize {
             return self.model.good_reply();
+        }
+        // a long wait for the sign: keep answering "in progress" while polling
+        if self.max_in_progress > 8 && self.model.loc == Loc::Poll && self.in_progress_run > 0 && self.in_progress_run < self.max_in_progress {
+            return BusReply::Msg(Some(Message::ReportState(own, if cx.chance(1, 2) { State::PageLoadInProgress } else { State::PageShowInProgress })));
+        }
+        // local echo: the bus hands back exactly what was sent (RS-485 adapters do that)
+        if cx.chance(1, 40) {
+            if let Some(m) = &self.last_sent {
+                cx.fault("echo_reply");
+                return BusReply::Msg(Some(m.clone()));
+            }
         }
         if cx.chance(self.good_num, 20) {
             // Mostly the reply that leads straight to success; sometimes another reply that the
@@ -145,7 +159,7 @@ impl SignBus for AdvBus {
         let loc = self.model.loc;
         // Bounded liveness: after 120 turns the adversary only gives protocol-advancing replies,
         // so every documented operation ends well before 400 messages.
-        if self.turns.len() >= 400 {
+        if self.turns.len() >= 400 + 2 * self.max_in_progress as usize {
             if self.judge == Judge::Model {
                 self.cx.fail("C10/liveness-call-does-not-end", format!("{:?}: {} messages emitted and the call still has not returned", self.model.call, self.turns.len()));
             } else {
@@ -153,7 +167,7 @@ impl SignBus for AdvBus {
                 self.cx.probe("run_cut_at_message_cap");
                 self.cut = true;
             }
-            if self.turns.len() >= 5_000 {
+            if self.turns.len() >= 8_000 {
                 panic!("controller keeps talking after {} bus errors; giving up on this run", self.turns.len() - 400);
             }
             self.turns.push(Turn { sent, reply: BusReply::Err });
@@ -174,13 +188,17 @@ impl SignBus for AdvBus {
             }
         }
         // 2. the adversary answers
+        self.last_sent = Some(sent.clone());
         let mut reply = self.draw_reply();
         let in_progress = matches!(&reply, BusReply::Msg(Some(Message::ReportState(a, State::PageLoadInProgress | State::PageShowInProgress))) if *a == self.addr);
         if in_progress {
             self.in_progress_run += 1;
-            if self.in_progress_run > 8 {
+            if self.in_progress_run > self.max_in_progress {
                 reply = self.model.good_reply();
                 self.in_progress_run = 0;
+            }
+            if self.in_progress_run == 201 {
+                self.cx.probe("polled_more_than_200_times_in_a_row");
             }
         } else {
             self.in_progress_run = 0;
@@ -260,7 +278,8 @@ impl Scenario for Adversary {
         let ncalls = 1 + *cx.pick(&[0u64, 0, 1, 2]);
         let good_num = *cx.pick(&[19u64, 16, 10, 20, 18]);
         let dummy = ControllerModel::new(addr, Call::ShutDown, vec![]);
-        let bus = Rc::new(RefCell::new(AdvBus { cx: cx.clone(), addr, model: dummy, judge: self.judge, good_num, turns: Vec::new(), in_progress_run: 0, cut: false }));
+        let max_in_progress = if cx.chance(1, 64) { 200 + cx.draw(400) as u32 } else { 8 };
+        let bus = Rc::new(RefCell::new(AdvBus { cx: cx.clone(), addr, model: dummy, judge: self.judge, good_num, turns: Vec::new(), in_progress_run: 0, cut: false, max_in_progress, last_sent: None }));
         let sign = Sign::new(bus.clone(), addr, t);
         cx.set_nontrivial();
         let mut whole: Vec<u64> = Vec::new();
